@@ -243,6 +243,9 @@ func (c *lifeChecker) Final(w *World) *Violation {
 	bad := func(fp, format string, a ...any) *Violation {
 		return &Violation{Oracle: "lifecycle", Step: w.step, Fp: "life:" + fp, Msg: fmt.Sprintf(format, a...) + "\n" + historyTail(w, 30)}
 	}
+	if w.lateCmd != "" {
+		return bad("command-runs-after-termination", "a command of a connected client was still executing after RequestTermination + WaitForTermination (or Close) had returned: %s", w.lateCmd)
+	}
 	// every lifecycle call must have returned
 	for _, cl := range w.clients {
 		if cl.plan.Name == "admin" && (cl.busy || cl.pos < len(cl.plan.Items)) {
